@@ -534,7 +534,7 @@ def phase_traces(ctx, fnd):
     for i, c in enumerate(all_cases):
         fam, inp = c["fam"], c["inp"]
         v = verdicts[i + 1]
-        _, _, _, summ, eq, pyok, rsok = v[:7]
+        _, _, _, summ, eq, pyok, rsok, pyref, rsref = v[:9]
         py, rs = obs["py"][i], obs["rs"][i]
         keep = keeps[i + 1]
         ctx.validated(2)
@@ -543,10 +543,10 @@ def phase_traces(ctx, fnd):
         if any(o[0] == "v" for o in py + rs):
             st["nontrivial"] += 1
             ctx.nontrivial(("trace", fam, json.dumps(inp, separators=(",", ":"))))
-            if fam not in sampled and all(eq) and all(pyok):
+            if fam not in sampled and all(eq) and all(pyok) and L.case_size(inp) > 60:
                 sampled.add(fam)
                 ctx.sample({"recorded": render_input(fam, inp)[:300], "py": py, "rs": rs, "tlc_verdict": {"eq": eq, "py_ok": pyok, "rs_ok": rsok}}, limit=16)
-        if fam == "bisect" and not v[7]:
+        if fam == "bisect" and not v[9]:
             raise MachineryError(f"FindLemma fails on a recorded table: {inp}")
         reported = False
         for j, var in enumerate(keep):
@@ -571,7 +571,7 @@ def phase_traces(ctx, fnd):
                 continue
             reported = True
             psite, rsite = L.SITES[fam]
-            site = rsite if pyok[j] and not rsok[j] else psite if rsok[j] and not pyok[j] else psite + "+" + rsite
+            site = rsite if pyref[j] and not rsref[j] else psite if rsref[j] and not pyref[j] else psite + "+" + rsite
             if fam == "cdelta":
                 clause = f"delta-does-not-decode-to-target(py={'ok' if pyok[j] else 'bad'},rs={'ok' if rsok[j] else 'bad'})"
             else:
@@ -581,13 +581,56 @@ def phase_traces(ctx, fnd):
                           "python-accepts-rust-fails" if py[var][0] == "v" else "rust-accepts-python-fails") + f"({kinds})"
             sig = f"{site}|{GROUP[fam]}:{clause}|{classify_trace(fam, inp, summ, var)}"
             what = (f"{render_input(fam, inp)[:400]}: pure Python -> {L.describe_obs(py[var])}; Rust -> {L.describe_obs(rs[var])}; "
-                    f"TLC (EquivTrace): equal={eq[j]} python-inside-reference={pyok[j]} rust-inside-reference={rsok[j]}")
+                    f"TLC (EquivTrace): equal={eq[j]} python-is-reference-answer={pyref[j]} rust-is-reference-answer={rsref[j]}")
             fnd.add(sig, what, {"kind": "trace", "fam": fam, "inp": inp, "variant": var, "py": py, "rs": rs,
                                 "py_details": det["py"].get(i, {}), "rs_details": det["rs"].get(i, {}),
                                 "tlc_verdict": v, "call": render_input(fam, inp), "origin": "recorded execution"}, L.case_size(inp))
     ctx.cov["recorded"] = per
     if stats["drift"]:
         ctx.cov["recorded_agree_with_each_other_not_with_reference"] = stats["drift"]
+
+
+def phase_big_pairs(ctx, fnd):
+    """create_delta on pairs too large for TLC's byte-level decoder: all four encoder x decoder
+    pairings of the real code against the target (the target is the specification here)."""
+    import random
+    rng = random.Random(ctx.seed * 104729 + 15)
+    pairs = G.big_pairs(rng, ctx.quick)
+    cases = [{"fam": "cdelta", "inp": [b.hex(), t.hex()]} for _, b, t in pairs]
+    obs, det = run_cases_both(ctx, cases, 4)
+    dcases, meta = [], []
+    for i, (name, b, t) in enumerate(pairs):
+        want = ["v", L.rep(t)]
+        for m in MODES:
+            ctx.count()
+            ctx.validated()
+            for v, o in enumerate(obs[m][i]):
+                if o != want:
+                    site = L.SITES["cdelta"][MODES.index(m)]
+                    fnd.add(f"{site}|create_delta:delta-does-not-decode-to-target|large:{name}",
+                            f"create_delta on the pair '{name}' ({len(b)} -> {len(t)} bytes), {m}: own decoder gives {L.describe_obs(o)}, target is {want[1][:60]}",
+                            {"kind": "case", "fam": "cdelta", "inp": cases[i]["inp"] if len(b) + len(t) < 4096 else [name], "exp": None, "variant": v,
+                             "py": obs["py"][i], "rs": obs["rs"][i], "call": f"create_delta(<{name}>)", "origin": "large pair"}, len(b) + len(t))
+            for key in ("delta", "delta_chunks"):
+                d = det[m].get(i, {}).get(key)
+                if d is not None and (b.hex(), d) not in {(c["inp"][0], c["inp"][1]) for c in dcases[-4:]}:
+                    dcases.append({"fam": "deltatrace", "inp": [b.hex(), d]})
+                    meta.append((name, m, t))
+        ctx.nontrivial(("bigpair", name))
+    obs2, _ = run_cases_both(ctx, dcases, 4)
+    for k, (name, enc, t) in enumerate(meta):
+        want = ["v", L.rep(t)]
+        ctx.count(2)
+        ctx.validated(2)
+        py, rs = obs2["py"][k], obs2["rs"][k]
+        if py != rs:        # (py == rs != target: the encoder's delta is bad, reported above)
+            bad = "py" if py[0] != want and rs[0] == want else "rs" if rs[0] != want and py[0] == want else "py+rs"
+            site = "+".join(L.SITES["deltatrace"][MODES.index(x)] for x in bad.split("+"))
+            fnd.add(f"{site}|apply_delta:decoders-differ-on-encoder-output|large:{name},encoder={enc}",
+                    f"the delta made by the {enc} encoder for '{name}' decodes to pure Python -> {L.describe_obs(py[0])}, Rust -> {L.describe_obs(rs[0])}; target {want[1][:60]}",
+                    {"kind": "case", "fam": "deltatrace", "inp": dcases[k]["inp"] if len(dcases[k]["inp"][0]) < 8192 else [name, enc], "exp": None,
+                     "variant": 0, "py": py, "rs": rs, "call": f"apply_delta(<{name}>, <delta of {enc}>)", "origin": "large pair"}, len(t))
+    ctx.cov["large_pairs"] = {"pairs": [n for n, _, _ in pairs], "deltas_cross_decoded": len(dcases)}
 
 
 def ref_kind(fam, summ, var, py, rs, pyok, rsok):
@@ -690,18 +733,27 @@ def phase_repo(ctx, fnd):
     base = {"kind": "repo", "dir": d, "seed": ctx.seed, "rounds": rounds}
     with cf.ThreadPoolExecutor(max_workers=3) as ex:
         fg = ex.submit(git_pack, ctx, d, ctx.seed, min(rounds, 12))
+        def collect(futs):
+            out, died = {}, {}
+            for m in MODES:
+                try:
+                    with open(futs[m].result()) as f:
+                        out[m] = json.load(f)["result"]
+                except MachineryError as e:
+                    # the scenario itself dying under one implementation is an observation
+                    died[m] = str(e)[-600:]
+                    out[m] = {"info": {}, "scenario": {"child-died": True}}
+            if len(died) == len(MODES):
+                raise MachineryError(f"repository-level scenario fails in both modes: {died}")
+            for m in died:
+                ctx.log(f"repository-level scenario died in mode {m}: {died[m][-300:]}")
+            return out
         f1 = {m: ex.submit(run_child, ctx, m, dict(base, step=1)) for m in MODES}
-        r1 = {}
-        for m in MODES:
-            with open(f1[m].result()) as f:
-                r1[m] = json.load(f)["result"]
+        r1 = collect(f1)
         has_git = fg.result()
         packs = list(MODES) + (["git"] if has_git else [])
         f2 = {m: ex.submit(run_child, ctx, m, dict(base, step=2, packs=packs)) for m in MODES}
-        r2 = {}
-        for m in MODES:
-            with open(f2[m].result()) as f:
-                r2[m] = json.load(f)["result"]
+        r2 = collect(f2)
     if not has_git:
         ctx.assumptions.append("git not available: no pack with C git's deltas in the repository-level pass")
     info = {}
@@ -731,18 +783,33 @@ def phase_repo(ctx, fnd):
         # the packs of both modes must give back what was put in (sanity of the scenario itself)
     for m in MODES:
         for name in MODES:
-            got = r2[m].get(f"read:{name}", {}).get("objects")
+            got = (r2[m].get(f"read:{name}") or {}).get("objects")
             want = r1[name].get("pack_objects")
             if got is not None and want is not None and got != want:
                 sig = f"dulwich:repository-level|pack-roundtrip|written-by={name},read-by={m}"
                 fnd.add(sig, f"objects read back by {m} from the pack written by {name} differ from what was written",
                         {"kind": "repo", "section": "pack-roundtrip", "writer": name, "reader": m, "seed": ctx.seed, "rounds": rounds}, 0)
     ctx.cov["repository_level"] = {"sections_compared": n_ops, "rounds": rounds, "packs_read": packs, "info": info,
-                                   "objects_in_own_pack": r1["py"].get("pack_written", {}).get("objects"),
-                                   "objects_in_git_pack": len(r2["py"].get("read:git", {}).get("objects", {})) if has_git else None}
-    ctx.sample({"repository_level": "tree ids / change lists with renames / objects read back from 3 packs / index lookups identical",
-                "trees_round0": r1["py"]["diff"][0]["trees"], "renames_default_round0": r1["py"]["diff"][0]["renames_default"][:3]}, limit=16)
+                                   "objects_in_own_pack": (r1["py"].get("pack_written") or {}).get("objects"),
+                                   "objects_in_git_pack": len((r2["py"].get("read:git") or {}).get("objects", {})) if has_git else None}
+    try:
+        ctx.sample({"repository_level": "tree ids / change lists with renames / objects read back from the packs / index lookups, compared between the modes",
+                    "trees_round0": r1["py"]["diff"][0]["trees"], "renames_default_round0": r1["py"]["diff"][0]["renames_default"][:3]}, limit=16)
+    except (KeyError, TypeError, IndexError):
+        pass
     shutil.rmtree(d, ignore_errors=True)
+
+
+# =========================================================================== negative controls (model level)
+def phase_negative_controls(ctx):
+    """The lemmas must bite: TLC has to find the expected violation in two defect models."""
+    for cfg, what in (("Equiv_neg_order.cfg", "a name containing '/' breaks OrderLemma (one-byte lookahead vs name/ order)"),
+                      ("Equiv_neg_pyint.cfg", "model of Python's int(text, 8): accepts mode texts the reference refuses (the F16 defect model)")):
+        res = tlc.run("EquivCases.tla", cfg, workers=1, timeout=600)
+        ctx.add_tlc(f"EquivCases/{cfg} (negative control: {what})", res, require_ok=False)
+        if "Lemmas" not in res.violated:
+            raise MachineryError(f"negative control {cfg}: TLC did not report the expected violation of Lemmas\n{res.output[-1500:]}")
+    ctx.cov["model_negative_controls_violated_as_expected"] = 2
 
 
 # =========================================================================== run / replay
@@ -759,7 +826,7 @@ def run(ctx):
     fnd = Findings(ctx)
     with cf.ThreadPoolExecutor(max_workers=2) as bg:
         ft = bg.submit(phase_traces, ctx, fnd)
-        fr = bg.submit(phase_repo, ctx, fnd)
+        fr = bg.submit(lambda: (phase_negative_controls(ctx), phase_repo(ctx, fnd), phase_big_pairs(ctx, fnd)))
         phase_enum(ctx, fnd)
         ft.result()
         fr.result()
@@ -767,8 +834,60 @@ def run(ctx):
     return ctx.finish(exhaustive=True)
 
 
+def to_trace_case(fam, inp):
+    """The recorded-execution form of an enumerated case (same call)."""
+    if fam in ("ptstr", "ptmode"):
+        t, n = L.pt_text(inp)
+        return "pttrace", [t.hex(), n]
+    if fam in ("delta", "deltax"):
+        return "deltatrace", [bytes(inp[0]).hex(), bytes(inp[1]).hex()]
+    if fam == "cdelta" and not isinstance(inp[0], str):
+        return "cdelta", [bytes(inp[0]).hex(), bytes(inp[1]).hex()]
+    if fam == "blocks" and not isinstance(inp[0], str):
+        return "blocks", [L.unrle(inp[0]).hex()]
+    return fam, inp
+
+
 def replay(ctx, path):
+    """Re-execute one recorded failing case on the current tree: both implementations in fresh
+    children, the reference semantics by TLC; prints the comparison; exit 1 when they still differ."""
     with open(path) as f:
         obj = json.load(f)
-    print(json.dumps({k: v for k, v in obj.items() if k not in ("inp", "exp")}, indent=1)[:4000])
-    return 0
+    print(f"replay of {path}\n  signature: {obj.get('signature')}\n  recorded:  {obj.get('what')}")
+    rustext.build()
+    ctx.known = []
+    fnd = Findings(ctx)
+    if obj.get("kind") == "repo":
+        ctx.seed = obj.get("seed", ctx.seed)
+        ctx.tier = "quick" if obj.get("rounds", 6) <= 6 else "thorough"
+        phase_repo(ctx, fnd)
+        for sig, (_, what, rep, n) in sorted(fnd.best.items()):
+            print(f"  STILL DIFFERENT: {sig}\n    {what}")
+        if not fnd.best:
+            print("  the repository-level results are identical now")
+        fnd.flush()
+        return 1 if ctx.violations else 0
+    fam, inp = obj["fam"], obj["inp"]
+    print(f"  call: {render_input(fam, inp)}")
+    tfam, tinp = to_trace_case(fam, inp)
+    obs, det = run_cases_both(ctx, [{"fam": tfam, "inp": tinp}], 1)
+    for m in MODES:
+        print(f"  observed {m}: {[L.describe_obs(o) for o in obs[m][0]]}  details: {det[m].get(0, {})}")
+    if tfam == "istree":
+        ref = L.expected(fam, inp, obj["exp"])
+        same = obs["py"][0] == obs["rs"][0]
+        print(f"  reference (recorded TLC state): {ref}")
+        print("  -> " + ("equivalent now" if same else "STILL DIFFERENT"))
+        return 0 if same else 1
+    t, keep = make_trace(1, tfam, tinp, obs["py"][0], obs["rs"][0], det["py"].get(0, {}), det["rs"].get(0, {}))
+    v = tlc_verdicts(ctx, [t], "replay")[1]
+    _, _, _, summ, eq, pyok, rsok, pyref, rsref = v[:9]
+    print(f"  TLC (EquivTrace) reference summary: {summ}")
+    bad = False
+    for j, var in enumerate(keep):
+        same = eq[j] if tfam == "cdelta" else obs["py"][0][var] == obs["rs"][0][var]
+        print(f"  variant {var}: equal={same}  python-is-reference-answer={pyref[j]}  rust-is-reference-answer={rsref[j]}  "
+              f"python-inside-reference={pyok[j]}  rust-inside-reference={rsok[j]}")
+        bad |= not same
+    print("  -> " + ("STILL DIFFERENT: the property is violated on this input" if bad else "equivalent now"))
+    return 1 if bad else 0
